@@ -1,6 +1,7 @@
 (* C01 — An address is never leased to two clients at the same time.  Statements only. *)
 From PSA Require Import model.Bytes model.Clients model.Ipdb model.Dhcp spec.SpecTable spec.SpecIpdb model.Server spec.Monitors
   proofs.TableProofs proofs.LeaseProofs proofs.ServerProofs.
+From PSA Require Import spec.WireHyps spec.WireExample proofs.WireProofs proofs.WireInv proofs.WireLease proofs.WireHypsProofs proofs.WireExampleProofs.
 Open Scope N_scope.
 
 (* Every execution of the server, whatever the interleaving of its handlers, is a history of the atomic
@@ -52,6 +53,28 @@ Theorem C01_accepted_round_keeps_invariant : forall c t now log r t',
   t2 = t' /\ LInv (c_lease c) now2 t2 log2 /\ excl_log log2 /\ (now <= now2)%Z.
 Proof. exact accepted_round_keeps_invariant. Qed.
 Print Assumptions C01_accepted_round_keeps_invariant.
+
+(* ON THE WIRE, over whole histories.  For every configuration (distinct reserved hardware addresses and addresses inside
+   the network, option lists that fit, hold times not longer than the lease) and every sequence of sequential rounds -
+   received byte strings of any content, ARP situations, observed frames with their instants - that the acceptor accepts
+   from the initial table, mon_C01 holds: whenever an ACK for an address is sent, every earlier ACK of that address to
+   another client (lease counted from the arrival of that client's request) and every earlier OFFER of it to another client
+   (hold counted from its DISCOVER) has run out strictly before.  "Another client" is the property's notion (le_pid: reserved
+   hardware address, else usable client identifier, else hardware address).  The acceptor is what every run compares the
+   implementation with, round by round (tag 101); the premises are evaluated on every generated history (tag 220).
+   Proof: the invariant TInv (unique live bindings, ownership, bounded expiries) is kept by every accepted round and
+   entries only grow; each OFFER/ACK seen on the wire is backed by a reservation in the table that outlives its hold / lease;
+   the database refuses an update while another client's binding of the address is live. *)
+Theorem C01_on_the_wire : forall c h, cfg_wire_ok c -> cfg_srv_ok c -> durations_ok c -> Forall wf_round h -> seq_times 0%Z h ->
+  accepted c h -> mon_C01 c h = true.
+Proof. exact accepted_history_c01. Qed.
+Print Assumptions C01_on_the_wire.
+
+Theorem C01_wire_nonvacuous : exists c h, wire_example = Some (c, h) /\
+  cfg_wire_ok c /\ cfg_srv_ok c /\ Forall wf_round h /\ seq_times 0%Z h /\ (0 <= hold_ns <= c_lease c)%Z /\ (0 <= req_hold_ns <= c_lease c)%Z /\
+  accepted c h /\ length h = 6%nat /\ length (events c h) = 2%nat /\ length (flat_map r_outs h) = 3%nat.
+Proof. exact wire_example_premises. Qed.
+Print Assumptions C01_wire_nonvacuous.
 
 Example C01_nonvacuous :
   let x := {| net_from := 10; net_to := 20; dyn_from := 12; dyn_to := 13; st := empty_store |} in
